@@ -38,7 +38,14 @@ Definition inrange (a : arr) (n : Z) : Prop := forall i, 0 <= i < n -> get a i <
 Definition inrange_b (a : arr) (n : Z) : bool :=
   forallb (fun i => match get a i with Some _ => true | None => false end) (zrange n).
 
-Record Inv (g : geom) (K : Z) (v0 : arr) (s : st) : Prop := mkInv {
+(* an image U over flat indices that lies above the initial image plane and that no dilate-and-clip
+   step along the stride table can raise (mask plane = upper half of v0, constant) *)
+Definition flat_postfixed (g : geom) (strides : list Z) (v0 : arr) (U : Z -> Z) : Prop :=
+  (forall i, 0 <= i < gS g -> sel v0 i <= U i) /\
+  (forall i st, 0 <= i < gS g -> interior_b g i = true -> In st strides ->
+     Z.min (sel v0 (i + st + gS g)) (U i) <= U (i + st)).
+
+Record Inv (g : geom) (K : Z) (strides : list Z) (v0 : arr) (s : st) : Prop := mkInv {
   i_rv : inrange (vals s) (2 * gS g);
   i_rp : inrange (prv s) (2 * gS g);
   i_rn : inrange (nxt s) (2 * gS g);
@@ -51,7 +58,8 @@ Record Inv (g : geom) (K : Z) (v0 : arr) (s : st) : Prop := mkInv {
           sel (vals s) i = 0 /\ sel (vals s) (i + gS g) = 0;
   i_vk : forall i, 0 <= i < 2 * gS g -> 0 <= sel (vals s) i < K;
   i_lo : forall i, 0 <= i < gS g -> sel v0 i <= sel (vals s) i <= sel (vals s) (i + gS g);
-  i_mk : forall i, gS g <= i < 2 * gS g -> sel (vals s) i = sel v0 i }.
+  i_mk : forall i, gS g <= i < 2 * gS g -> sel (vals s) i = sel v0 i;
+  i_le : forall U, flat_postfixed g strides v0 U -> forall i, 0 <= i < gS g -> sel (vals s) i <= U i }.
 
 Definition inv_check (g : geom) (K : Z) (s : st) : bool :=
   let n := 2 * gS g in
@@ -79,9 +87,13 @@ Definition prep_check (p : prep) : bool :=
   (drops (p_st p) =? 0) &&
   inv_check g (p_K p) (p_st p) && inrange_b (p_vmap p) (p_K p).
 
-(* (image mask footprint) -> bool : the set-up state of this instance satisfies the invariant *)
+(* (image mask footprint offset) -> bool : the set-up state of this instance satisfies the invariant *)
 Definition entry_prep_check (x : sx) : sx :=
   let image := as_Zss (arg 0 x) in
   let mask := as_Zss (arg 1 x) in
   let fp := as_boolss (arg 2 x) in
-  of_bool (accepted image mask fp && prep_check (prepare image mask fp)).
+  match as_Zs (arg 3 x) with
+  | [o0; o1] => of_bool (accepted_common image mask fp &&
+                         prep_check (prepare_offs image mask fp (fp_offsets_at fp o0 o1)))
+  | _ => of_bool (accepted image mask fp && prep_check (prepare image mask fp))
+  end.
